@@ -137,6 +137,32 @@ struct CrcSim
         if (poly == 0) c.st.add("probe.crc_zero_polynomial");
         uint64_t const is = (uint64_t)p.knob("initsel", 0);
         init = (is % 4 == 0) ? 0 : (is % 4 == 1) ? wmask(w) : (splitmix64(is) & wmask(w));
+        if (p.knob("huge4g", 0))
+        { // thorough tier only: a message longer than 2^32 bytes (zero pages, never resident) fed at once and in three pieces
+            size_t const N = ((size_t)1 << 32) + 13 + (size_t)(mag64(p.knob("msglen", 16)) % 64);
+            unsigned char *big = (unsigned char *)mmap(nullptr, N, PROT_READ, MAP_PRIVATE | MAP_ANONYMOUS | MAP_NORESERVE, -1, 0);
+            if (big == MAP_FAILED) { c.st.add("probe.crc_4GiB_message_not_mappable"); return; }
+            size_t const esz0 = (size_t)w / 8;
+            tm = SA.halloc(0x100 * esz0); tl = SA.halloc(0x100 * esz0);
+            switch (w)
+            {
+            case 8: a_crc8m_init((a_u8 *)tm, (a_u8)poly); a_crc8l_init((a_u8 *)tl, (a_u8)poly); break;
+            case 16: a_crc16m_init((a_u16 *)tm, (a_u16)poly); a_crc16l_init((a_u16 *)tl, (a_u16)poly); break;
+            case 32: a_crc32m_init((a_u32 *)tm, (a_u32)poly); a_crc32l_init((a_u32 *)tl, (a_u32)poly); break;
+            default: a_crc64m_init((a_u64 *)tm, poly); a_crc64l_init((a_u64 *)tl, poly); break;
+            }
+            uint64_t const iv = init ? init : 1;
+            bool const lsb = (mag64(p.knob("msgseed", 1)) & 1) != 0; // one bit order per item keeps the item inside its CPU budget
+            size_t const c1 = (size_t)3 << 29, c2 = N - 2 * c1;
+            uint64_t whole, parts;
+            if (lsb) { whole = run_l(big, N, iv); parts = run_l(big + 2 * c1, c2, run_l(big + c1, c1, run_l(big, c1, iv))); }
+            else { whole = run_m(big, N, iv); parts = run_m(big + 2 * c1, c2, run_m(big + c1, c1, run_m(big, c1, iv))); }
+            munmap(big, N);
+            c.steps += 2; c.st.add("probe.crc_message_longer_than_4GiB");
+            if (whole != parts) c.fail("pieces-differ-from-whole", lsb ? "a_crc_lsb" : "a_crc_msb", "a message of %zu bytes fed at once gives %llx, fed in three pieces %llx (width %d)", N, (unsigned long long)whole, (unsigned long long)parts, w);
+            c.obs(whole);
+            return;
+        }
         size_t n = (size_t)(mag64(p.knob("msglen", 16)) % 301);
         if (p.knob("longmsg", 0)) { n = 65530 + (size_t)(mag64(p.knob("msglen", 16)) % 6000); c.st.add("probe.crc_message_longer_than_64k"); } // lengths that do not fit 16 bits
         uint64_t const ms = (uint64_t)p.knob("msgseed", 1);
@@ -503,7 +529,6 @@ struct StreamEngine : Engine
     int op_kind(std::string const &n) const override { for (int k = 0; k < X__COUNT; ++k) if (n == STREAM_OP_NAMES[k]) return k; return -1; }
     Plan generate(std::string const &prop, uint64_t seed, int tier) override
     {
-        (void)tier;
         Rng r(seed);
         Plan p; p.engine = "stream"; p.prop = prop; p.seed = seed;
         if (prop == "C17")
@@ -512,6 +537,7 @@ struct StreamEngine : Engine
             p.set("wsel", (int64_t)r.below(4)); p.set("polyseed", (int64_t)r.below(1u << 30)); p.set("initsel", (int64_t)r.below(1u << 30));
             p.set("msglen", (int64_t)r.geolen(0, 300)); p.set("msgseed", (int64_t)r.below(1u << 30)); p.set("pattern", (int64_t)r.below(5));
             p.set("prefill", (int64_t)r.below(6)); p.set("polyedge", (int64_t)r.below(24)); p.set("longmsg", r.chance(1, 300));
+            if (tier && r.chance(1, 400000)) { p.set("huge4g", 1); p.ops.clear(); return p; }
             int64_t const nops = r.geolen(0, 40);
             for (int64_t i = 0; i < nops; ++i) { Op o; uint64_t k = r.below(8); o.kind = k < 6 ? X_FRAG : k == 6 ? X_EMPTY : X_REST; o.a[0] = (int64_t)r.below(100000); p.ops.push_back(o); }
         }
